@@ -70,6 +70,12 @@ def order_bases() -> List[Tuple[str, List[Dict[str, Any]]]]:
     specs = D.specs_for(rich, "a", "chrono")
     assert specs is not None
     out.append((H.hist_str(rich), specs))
+    # fills inside the same second (distinct timestamps all the same), then disposals that need the later ones
+    for tail in (((H.S(1), "d"),), ((H.S(2), "d"),), ((H.S(2), "d"), (H.S(1), "d")), ((H.S(1), "ms"), (H.S(1), "d"))):
+        sub = ((H.B(1, 1), "="), (H.B(3, 1), "ms"), (H.B(2, 1), "ms")) + tail
+        specs = D.specs_for(sub, "a", "chrono")
+        assert specs is not None
+        out.append((H.hist_str(sub), specs))
     return out
 
 
